@@ -446,6 +446,10 @@ def run(chk, tier):
     cases += ic
     mc = macro_cases(len(cases))
     cases += mc
+    dc = dollar_cases(len(cases))
+    cases += dc
+    chk.part("dollar_parameters_of_a_sole_placeholder", programs=len(dc), forms=["{0:0$} with the value as its own width", "{w:w$}", "{_0:W$} / {_0:.P$} / {_0:W$.P$} with constants captured from the caller's scope"],
+             oracle="format! with the same literal, under every caller spec (the literal is no bare placeholder: the caller's flags do not apply)")
     chk.part("macro_generated", programs=len(mc), fragments="$e:expr = `*x + 1`, `*y - *x` as operands of `*`, binary and unary `-`, inside tuples, brackets and call arguments",
              oracle="the same literal and arguments in a format! written by the same macro")
     chk.part("space", traits=list(TRAITS), literal_variants=total_lits, programs=len(cases), literal_spellings="2 of every 7 literals written with \\u{..} escapes for every character / as a raw string",
@@ -472,6 +476,46 @@ def run(chk, tier):
     chk.part("engine", bins_built=eng.bins_built, rounds=eng.rounds, build_s=round(eng.build_s, 1))
     chk.assumptions += ["the reference format! call is generated from the same literal/argument AST but evaluated outside the derive: arguments in a scope where field names are references, the literal in a scope where field names are the fields",
                         "unit names are of the form (Upper lower+){1,3}, on which the eight documented casings are unambiguous"]
+
+
+
+def dollar_cases(start):
+    """A literal that is ONE placeholder whose width / precision is a `$` parameter needing no further argument: the value itself
+    (`"{0:0$}", *_0`, `"{w:w$}", w = ..`) or a constant captured from the caller's scope (`{_0:W$}`).  Not a bare placeholder:
+    the text is what format! gives for the same literal, whatever the caller's own flags are."""
+    out = []
+    items = [
+        ("Display", "display", "{0:0$}", "*_0", "usize", ["0usize", "3", "7"], 'format!("{0:0$}", v)'),
+        ("Display", "display", "{w:w$}", "w = *_0", "usize", ["0usize", "4", "11"], 'format!("{w:w$}", w = v)'),
+        ("Display", "display", "{w:>w$}", "w = _0", "usize", ["2usize", "9"], 'format!("{w:>w$}", w = v)'),
+        ("Display", "display", "{_0:W$}", "", "i32", ["5", "-7", "123456789"], 'format!("{v:W$}")'),
+        ("Display", "display", "{_0:.P$}", "", "f64", ["2.456", "-0.5", "1e10"], 'format!("{v:.P$}")'),
+        ("Display", "display", "{_0:W$.P$}", "", "f64", ["2.456", "-0.5"], 'format!("{v:W$.P$}")'),
+        ("Display", "display", "{:W$}", "_0", "i32", ["5", "-7"], 'format!("{:W$}", v)'),
+        ("Debug", "debug", "{_0:W$?}", "", "i32", ["5", "-7"], 'format!("{v:W$?}")'),
+        ("Debug", "debug", "{_0:.P$?}", "", "f64", ["2.456"], 'format!("{v:.P$?}")'),
+        ("LowerHex", "lower_hex", "{_0:W$x}", "", "i32", ["255", "-1"], 'format!("{v:W$x}")'),
+        ("Binary", "binary", "{_0:#W$b}", "", "u8", ["5u8", "255"], 'format!("{v:#W$b}")'),
+        ("UpperExp", "upper_exp", "{_0:.P$E}", "", "f64", ["1234.5678"], 'format!("{v:.P$E}")'),
+    ]
+    outer = {"Display": ["{}", "{:>12}", "{:<3}", "{:+.1}", "{:08}"], "Debug": ["{:?}", "{:#?}", "{:>12?}", "{:x?}"], "LowerHex": ["{:x}", "{:#012x}"],
+             "Binary": ["{:b}", "{:>14b}"], "UpperExp": ["{:E}", "{:+.0E}"]}
+    for i, (derive, attr, lit, args, ty, vals, want) in enumerate(items):
+        for container in ("struct", "enum"):
+            a = "#[%s(%s%s)]" % (attr, lit_rs(lit), (", " + args) if args else "")
+            if container == "struct":
+                decl = "#[derive(derive_more::%s)] %s pub struct S(pub %s);" % (derive, a, ty)
+                mk = "S(v)"
+            else:
+                decl = "#[derive(derive_more::%s)] pub enum S { %s V(%s), #[%s(\"u\")] #[allow(dead_code)] U }" % (derive, a, ty, attr)
+                mk = "S::V(v)"
+            lines = []
+            for v in vals:
+                for o in outer[derive]:
+                    lines.append('{ let v: %s = %s; r.eq(%s, format!(%s, %s), %s); }' % (ty, v, lit_rs("%s on %s, caller spec %s" % (lit, v, o)), lit_rs(o), mk, want))
+            mod = "use super::*;\n#[allow(dead_code)] const W: usize = 6;\n#[allow(dead_code)] const P: usize = 1;\n%s\npub fn run(r: &mut R) {\n    %s\n}" % (decl, "\n    ".join(lines))
+            out.append(Case("c%d" % (start + len(out)), mod, meta={"n": 1, "derive": derive, "shape": "dollar-parameter-sole-placeholder/" + container, "sample": "const W: usize = 6; const P: usize = 1; " + decl}))
+    return out
 
 
 def fix_unit_names(mod):
